@@ -47,6 +47,13 @@ func (p c03) Run(c *core.Ctx) {
 		opts.OnlyIface = false
 		opts.Types = plainAny
 	}
+	// every seventh case: all components are lazy and nothing eager refers to them - the graph (with its
+	// cycles) is created by lookups issued after the start, under the same substitutions
+	lazyAfter := c.Index%7 == 5
+	if lazyAfter {
+		opts.Types = []int{7, 8, 11, 14}
+		opts.PUnnamed = 0
+	}
 	sc := RandomGraph(c.Rng, opts)
 	g := &world.G{Rng: c.Rng, Sc: sc}
 	if c.Index%2 == 0 {
@@ -173,6 +180,19 @@ func (p c03) Run(c *core.Ctx) {
 			return
 		case "error":
 			continue
+		}
+		if lazyAfter {
+			// create the lazy graph now, entering it at one or two seeded members; a lookup that is refused (stale
+			// version detected) is a legitimate answer - what was published all the same is then checked below
+			perm := c.Rng.Perm(len(sc.Nodes))
+			for x := 0; x < 1+c.Rng.Intn(2) && x < len(perm); x++ {
+				r.Guard(func() { r.UserLookup(sc.Nodes[perm[x]].DisplayName()) })
+				if r.Panic != nil || r.Diverge != nil {
+					c.Fail("", fmt.Sprintf("lookup of lazy component %q after the start: %s", sc.Nodes[perm[x]].DisplayName(), core.Short(r.OutcomeDetail(), 300)), failDetail(sc, r, map[string]any{"plan": plan}))
+					return
+				}
+			}
+			c.Count("lazy_graphs_created_after_the_start", 1)
 		}
 		// successful start: one version per name
 		type seenT struct {
